@@ -431,7 +431,8 @@ pub fn run(tier: Tier) -> i32 {
         Tier::Thorough => Duration::from_secs(1500),
     };
     let specs = sweep_specs();
-    let sweep = run_stage("sweep", sweep_count(&specs), wall_cap, &mut total, &|i| sweep_scenario(i, &specs), &exec_guarded, &[777], 40);
+    let seeded_runs = gen::scaled(seeded_runs);
+    let sweep = run_stage("sweep", if gen::skip_fixed() { 1 } else { sweep_count(&specs) }, wall_cap, &mut total, &|i| sweep_scenario(i, &specs), &exec_guarded, &[777], 40);
     let seeded = if sweep.found.is_none() {
         Some(run_stage("seeded", seeded_runs, wall_cap, &mut total, &|i| generate(&mut Rng::new(run_seed(c.seed, PROP, "seeded", i)), tier), &exec_guarded, &[0, 1], 30))
     } else {
